@@ -8,7 +8,9 @@ invariant   forall t. t in cache ==> cache[t] == Impl(t).   It is assumed on ent
   * at every point where other code can observe the cache: whenever Python code may run (the Impl call looks attributes up on
     the class: a metaclass __getattribute__ may re-enter the engine or let another thread run) - obligation
     `cache-coherent-while-python-code-runs`.
-Hence no provisional entry may ever be published.  Every access happens under the mutex (lockset obligations of the map), no
+Hence no provisional entry may ever be published.  An entry must not outlive its class (the address can be reused by another
+class): every entry this activation adds gets its eviction callback in the same activation (`every-new-cache-entry-gets-an-
+eviction-callback`, normal return only: a failing weak-reference creation is out of scope).  Every access happens under the mutex (lockset obligations of the map), no
 lock is held while Impl runs (L1).  A-ATTR (DESIGN 8.6): Impl(t) is a function of the class.  The weak reference that evicts
 the entry when the class dies is created through pybind11 (py::weakref / py::cpp_function: external, the callback body - erase
 under the write lock - is not executed here)."""
@@ -38,6 +40,7 @@ class CachedPredicate(Contract):
         st.facts.append(self.coherent(st))
         t = z3.Const('t!ans', Ref)
         st.facts.append(z3.ForAll([t], self.answer(t) == z3.And(py_type_check(t), self.impl_result(t)), patterns=[self.answer(t)]))
+        st.ghost['weakref_for'] = None          # the object for which an eviction callback was registered in this activation
         st.ghost['cache_size'] = fresh('cache_size', Int)
         st.facts.append(st.ghost['cache_size'] >= 0)
         return cx
@@ -75,13 +78,22 @@ class CachedPredicate(Contract):
             return [(s1, self.impl_result(r))]
         return None
 
+    def on_weakref(self, eng, st, vals, n):
+        v = vals[0]
+        st.ghost['weakref_for'] = v.ref if isinstance(v, PyObj) else v
+
     def on_python_call(self, eng, st, what, line):
         eng.oblige(st, 'III', 'cache-coherent-while-python-code-runs', self.coherent(st), line)
 
     # -- contract ----------------------------------------------------------------------------------------------------------
     def post(self, cx, ret):
         t = cx.old('type').ref
+        a, b = cx.entry.heap[self.cache_oid], cx.st.heap[self.cache_oid]
+        w = cx.st.ghost.get('weakref_for')
         return [('answers-PyType_Check-and-Impl', ret == self.answer(t)),
+                # an entry must not outlive its class: the address may be reused by another class (C01 / C18)
+                ('every-new-cache-entry-gets-an-eviction-callback',
+                 z3.Implies(z3.And(b.contains((t,)), z3.Not(a.contains((t,)))), z3.BoolVal(w is not None and w.eq(t)))),
                 ('cache-coherent-on-return', self.coherent(cx.st)),
                 ('no-lock-held-on-return', z3.BoolVal(not cx.st.ghost['locks']))]
 
